@@ -9,8 +9,34 @@
 #include <srpc.h>
 static char verif_getdata(void *srpc, TsrpcReceivedData *rd, unsigned _supla_int_t rr_id);
 #define srpc_getdata verif_getdata
+/* observe the device-originated relay reports at the call level (C06): value, result, extended value */
+static int verif_call_log = 0;
+static _supla_int_t verif_value_changed(void *srpc, unsigned char ch, char *value);
+static _supla_int_t verif_set_result(void *srpc, unsigned char ch, _supla_int_t sender, char success);
+static _supla_int_t verif_ext_changed(void *srpc, unsigned char ch, TSuplaChannelExtendedValue *v);
+#define srpc_ds_async_channel_value_changed verif_value_changed
+#define srpc_ds_async_set_channel_result verif_set_result
+#define srpc_ds_async_channel_extendedvalue_changed verif_ext_changed
 #include "supla_esp_devconn.c"
 #undef srpc_getdata
+#undef srpc_ds_async_channel_value_changed
+#undef srpc_ds_async_set_channel_result
+#undef srpc_ds_async_channel_extendedvalue_changed
+static _supla_int_t verif_value_changed(void *srpc, unsigned char ch, char *value) {
+  _supla_int_t r = srpc_ds_async_channel_value_changed(srpc, ch, value);
+  if (verif_call_log) sdk_out("CALL value %u %d %d", ch, value[0], r != 0);
+  return r;
+}
+static _supla_int_t verif_set_result(void *srpc, unsigned char ch, _supla_int_t sender, char success) {
+  _supla_int_t r = srpc_ds_async_set_channel_result(srpc, ch, sender, success);
+  if (verif_call_log) sdk_out("CALL result %u %d %d %d", ch, sender, success, r != 0);
+  return r;
+}
+static _supla_int_t verif_ext_changed(void *srpc, unsigned char ch, TSuplaChannelExtendedValue *v) {
+  _supla_int_t r = srpc_ds_async_channel_extendedvalue_changed(srpc, ch, v);
+  if (verif_call_log) sdk_out("CALL ext %u %d", ch, r != 0);
+  return r;
+}
 static char verif_getdata(void *srpc, TsrpcReceivedData *rd, unsigned _supla_int_t rr_id) {
   char r = srpc_getdata(srpc, rd, rr_id);
   sdk_out("GETDATA %u %d", (unsigned)rd->call_id, (int)(signed char)r);
@@ -239,6 +265,17 @@ int main(void) {
         device_init(ops_ntok > 1 ? atoi(ops_tok[1]) : 1);
         inited = 1;
         snapshot(0);
+      } else if (!strcmp(op, "inlevel") && ops_ntok == 3 && !inited) { /* level of an input pin at power-on */
+        int pin = atoi(ops_tok[1]);
+        if (pin >= 0 && pin < 16) sdk_gpio_in = (sdk_gpio_in & ~(1u << pin)) | ((atoi(ops_tok[2]) ? 1u : 0u) << pin);
+      } else if (!strcmp(op, "relflags") && ops_ntok == 4 && !inited) { /* relay i: flags, channel flags */
+        int i = atoi(ops_tok[1]);
+        if (i >= 0 && i < 8) { fw_board.relays[i].flags = atoi(ops_tok[2]); fw_board.relays[i].channel_flags = strtoul(ops_tok[3], 0, 10); }
+      } else if (!strcmp(op, "intype") && ops_ntok == 3 && !inited) {
+        int i = atoi(ops_tok[1]);
+        if (i >= 0 && i < 7) fw_board.inputs[i].type = atoi(ops_tok[2]);
+      } else if (!strcmp(op, "calllog") && ops_ntok == 2) {
+        verif_call_log = atoi(ops_tok[1]); fw_hook_relay_log = verif_call_log;
       } else if (!strcmp(op, "inflags") && ops_ntok == 3 && !inited) {
         int i = atoi(ops_tok[1]);
         if (i >= 0 && i < 7) fw_board.inputs[i].flags = atoi(ops_tok[2]);
@@ -371,6 +408,18 @@ int main(void) {
           }
           sdk_quiet_gpio = 0;
         }
+      } else if (!strcmp(op, "calllog") && ops_ntok == 2) {
+        verif_call_log = atoi(ops_tok[1]); fw_hook_relay_log = verif_call_log;
+      } else if (!strcmp(op, "staircase") && ops_ntok == 4) { /* channel Time2(ms) StaircaseButtonType */
+        int c = atoi(ops_tok[1]);
+        if (c >= 0 && c < CFG_TIME2_COUNT) supla_esp_cfg.Time2[c] = atoi(ops_tok[2]);
+        supla_esp_cfg.StaircaseButtonType = atoi(ops_tok[3]);
+        snapshot(0);
+      } else if (!strcmp(op, "relstate")) {
+        for (int i = 0; i < RELAY_MAX_COUNT; i++)
+          if (supla_relay_cfg[i].gpio_id != 255)
+            sdk_out("RELSTATE %d pin=%d out=%d logical=%d", i, supla_relay_cfg[i].gpio_id,
+                    (int)((sdk_gpio_out >> supla_relay_cfg[i].gpio_id) & 1), __supla_esp_gpio_relay_is_hi(&supla_relay_cfg[i]));
       } else if (!strcmp(op, "rslog") && ops_ntok == 2) {
         fw_hook_rs_log = atoi(ops_tok[1]);
         for (int i = 0; i < RS_MAX_COUNT; i++)
